@@ -75,7 +75,7 @@ def bvec(prob, v):
     return (onp.array(prob["b0"]) + v * onp.array(prob["bdir"])).tolist()
 
 
-def ref_codes(prob, x0, p_old_b, p_new_b, x_start, d_old=None, d_new=None, index=0):
+def ref_codes(prob, x0, p_old_b, p_new_b, x_start, d_old=None, d_new=None, index=0, sinv=None):
     """alpha for the predictor: independent dense Jacobians of the energy's gradient."""
     import jax
     import jax.numpy as np
@@ -91,15 +91,18 @@ def ref_codes(prob, x0, p_old_b, p_new_b, x_start, d_old=None, d_new=None, index
         dp = onp.array(d_new) - onp.array(d_old)
     b_ref = -Jp @ dp                                   # minus the change of the gradient caused by the parameter change
     dx = onp.asarray(x_start) - onp.asarray(x0)
-    nb = float(onp.linalg.norm(b_ref))
-    ws = "EQ" if float(onp.linalg.norm(H @ dx - b_ref)) <= 1e-4 * nb + 1e-13 else "NE"
+    # residuals are measured in the variables the linear solve ran in (x_bar = scaling * x for a scaled objective):
+    # gradient-like vectors transform with invScaling
+    wgt = onp.ones_like(b_ref) if sinv is None else onp.asarray(sinv, dtype=float) * onp.ones_like(b_ref)
+    nb = float(onp.linalg.norm(wgt * b_ref))
+    ws = "EQ" if float(onp.linalg.norm(wgt * (H @ dx - b_ref))) <= 1e-4 * nb + 1e-13 else "NE"
     lands = "NA"
     if prob["quadratic"] and index == 0:
         pnew = params(prob, p_new_b)
-        gn = onp.asarray(jax.grad(fam)(np.array(x_start), pnew))
+        gn = wgt * onp.asarray(jax.grad(fam)(np.array(x_start), pnew))
         # for a quadratic energy g(x0+dx; p_new) = g(x0; p_old) + (H dx - b_ref): x0 is a solution for p_old only to
         # the previous solve's tolerance, so its residual is part of the allowance
-        g0 = float(onp.linalg.norm(onp.asarray(jax.grad(fam)(x0, pold))))
+        g0 = float(onp.linalg.norm(wgt * onp.asarray(jax.grad(fam)(x0, pold))))
         lands = "EQ" if float(onp.linalg.norm(gn)) <= 1e-4 * nb + 1.000001 * g0 + 1e-12 else "NE"
     return ws, lands
 
@@ -180,7 +183,8 @@ def run_history(prob, hist, tid):
         if x_start is not None:
             xs = x_start / onp.asarray(real.scaling) if drv in ("BAL", "TRS") else x_start
             if warm:
-                e["ws"], e["lands"] = ref_codes(prob, x0, bvec(prob, pv), bvec(prob, v), xs)
+                e["ws"], e["lands"] = ref_codes(prob, x0, bvec(prob, pv), bvec(prob, v), xs,
+                                                sinv=(onp.asarray(real.invScaling) if drv in ("TRS", "BAL") else None))
             else:
                 e["startIsX0"] = bool(onp.all(xs == onp.asarray(x0)))
         if ret != "raised":
@@ -273,7 +277,7 @@ def main(tier, replay=None):
     rep = common.Reporter(PID, tier)
     rep.assumptions = [
         "dense sksparse shim stands in for CHOLMOD",
-        "predictor: ||H dx - b_ref|| <= 1e-4 ||b_ref|| with H, d grad/dp from independent jax.jacfwd (scipy cg default rtol 1e-5); quadratic energies: ||grad E(x0+dx; p_new)|| <= 1e-4 ||b_ref|| + ||grad E(x0; p_old)|| (the old point solves the old problem only to the previous tolerance)",
+        "predictor: ||H dx - b_ref|| <= 1e-4 ||b_ref|| (norms in the variables of the linear solve, i.e. weighted by invScaling for scaled objectives) with H, d grad/dp from independent jax.jacfwd (scipy cg default rtol 1e-5); quadratic energies: ||grad E(x0+dx; p_new)|| <= 1e-4 ||b_ref|| + ||grad E(x0; p_old)|| (the old point solves the old problem only to the previous tolerance)",
         "scaled vs unscaled solutions: ||x_s-x_u|| <= 1e-6 (1+||x_u||); flag recomputed under the NEW parameters with tol (1+1e-9)",
         "AL / bound-AL drivers are exercised with inactive constraints (the protocol, not the constraint handling, is the subject; C04 covers the latter)"]
     rng = random.Random(common.seed())
